@@ -13,6 +13,7 @@ repository's OpInfo table is attached as exploration-grade evidence.
 """
 from __future__ import annotations
 
+import itertools
 import json
 import os
 import time
@@ -31,6 +32,29 @@ _NO_KERNEL = ("NOT_IMPLEMENTED", "Could not find an implementation", "is invalid
 # (verdict 4: model == torch eager, runtime differs).  Checked by hand; anything else with verdict 4 is reported.
 _KERNEL_DEVIATIONS = {
     "sum_dim": lambda a, k: any(d == 0 for d in a[0]["shape"]),   # ReduceSum on an empty tensor with unsorted axes
+}
+
+
+def _iota(shape, dtype="int64"):
+    n = 1
+    for d in shape:
+        n *= d
+    return {"t": dtype, "shape": list(shape), "data": list(range(n))}
+
+
+# witnesses of the _refuted theorems of Props/C08.v (same inputs), plus a few fixed in-domain instances
+_WITNESSES = {
+    "flatten": [([_iota([2, 3, 4, 0]), 1, 2], {}), ([_iota([2, 0, 3, 4]), 2, 3], {}), ([_iota([2, 3, 4, 5]), -3, 2], {}), ([_iota([]), 0, -1], {})],
+    "reshape": [([_iota([3, 0]), [0, 0]], {}), ([_iota([2, 0]), [0, 2]], {}), ([_iota([2, 3, 4]), [4, -1]], {})],
+    "view_copy": [([_iota([3, 0]), [0, 0]], {})],
+    "narrow": [([_iota([3]), 0, -2, 2], {}), ([_iota([4]), 0, -3, 2], {})],
+    "chunk": [([_iota([5]), 4, 0], {}), ([_iota([7]), 3, 0], {}), ([_iota([0, 2]), 3, 0], {})],
+    "split": [([_iota([0]), 2, 0], {}), ([_iota([7]), 3, 0], {})],
+    "roll": [([_iota([3]), [-4], [0]], {}), ([_iota([3]), [7], [0]], {}), ([_iota([3]), [1], [-1]], {}), ([_iota([3, 0]), [1], [0]], {}),
+             ([_iota([3]), [-4]], {}), ([_iota([4]), [5], [0]], {}), ([_iota([2, 4]), [-1], [-2]], {})],
+    "div_mode": [([{"t": "int64", "shape": [2], "data": [16777217, -7]}, {"t": "int64", "shape": [2], "data": [1, 2]}], {"rounding_mode": "floor"}),
+                 ([{"t": "int64", "shape": [3], "data": [16777215, -16777215, 7]}, {"t": "int64", "shape": [3], "data": [-4096, 4097, -2]}], {"rounding_mode": "trunc"})],
+    "cat": [([[_iota([0]), _iota([0])], 0], {}), ([[_iota([0]), _iota([2, 3]), _iota([2, 3])], 1], {})],
 }
 
 
@@ -109,6 +133,8 @@ def _finding_class(fam, a, k, want, got_desc):
             return "all-inputs-legacy-empty"
         if leg and any(len(t["shape"]) > 1 for t in a[0]):
             return "legacy-empty-among-higher-rank"
+    if n == "div_mode" and any(abs(v) >= 2 ** 24 for v in a[0]["data"] + a[1]["data"]):
+        return "integer-operand-beyond-2^24"
     if n == "squeeze_dim" and a[0]["shape"] and a[0]["shape"][a[1]] != 1:
         return "listed-skip:extent-not-1"
     if n == "flip" and not a[0]["shape"] and a[1]:
@@ -132,7 +158,8 @@ def families(ctx):
         n = fam.quick if ctx.tier == "quick" else fam.thorough
         st = stats.setdefault(fam.name, {"n": 0, "ok": 0, "torch_refuses": 0, "no_kernel": 0, "listed_skip": 0, "property_fails": 0})
         fn = getattr(core, fam.fn)
-        for args, kwargs in fam.gen(ctx.rng, n):
+        # the witnesses of the `_refuted` theorems (and instances of the Examples) are replayed on the real code first
+        for args, kwargs in itertools.chain(_WITNESSES.get(fam.name, []), fam.gen(ctx.rng, n)):
             targs = X.to_torch(args)
             tk = {k: X.to_torch(v) for k, v in kwargs.items()}
             try:
@@ -275,7 +302,7 @@ def _short(args, kwargs):
 # ----------------------------------------------------------------------------- exploration sweep (subprocess)
 
 _SWEEP_CFG = {
-    "quick": {"samples_per_op": 3, "budget_s": 100, "dtypes": ["float32", "int64", "int32", "bool"]},
+    "quick": {"samples_per_op": 8, "budget_s": 100, "dtypes": ["float32", "int64"]},
     "thorough": {"samples_per_op": 12, "budget_s": 900,
                  "dtypes": ["float32", "int64", "int32", "bool", "uint8", "int16", "float64", "float16"]},
 }
